@@ -123,6 +123,12 @@ func (c *fctx) sliceOwned(v *types.Var) bool {
 		switch x := e.(type) {
 		case *ast.CompositeLit:
 			return true
+		case *ast.SliceExpr:
+			// a reslice of the variable itself stays within the memory this function created
+			if id, isId := x.X.(*ast.Ident); isId && c.localVar(id) == v {
+				return true
+			}
+			return false
 		case *ast.CallExpr:
 			if id, isId := x.Fun.(*ast.Ident); isId {
 				if b, isB := c.info.Uses[id].(*types.Builtin); isB {
@@ -328,6 +334,11 @@ func (c *fctx) assign(s *ast.AssignStmt) {
 			c.fail(s, "multi-value assignment")
 		}
 		if len(s.Lhs) == 1 {
+			if id, ok := s.Lhs[0].(*ast.Ident); ok {
+				if v := c.localVar(id); v != nil {
+					delete(c.views, v) // the variable is re-bound: it no longer aliases what it aliased
+				}
+			}
 			c.lvalSet(s.Lhs[0], c.rhsFor(s.Lhs[0], s.Rhs[0]))
 			c.recordView(s.Lhs[0], s.Rhs[0])
 			return
@@ -596,6 +607,27 @@ func (c *fctx) recordView(lhs, rhs ast.Expr) {
 	if v == nil {
 		return
 	}
+	if _, isSlice := v.Type().Underlying().(*types.Slice); isSlice {
+		delete(c.views, v)
+		if se, ok := rhs.(*ast.SliceExpr); ok && !se.Slice3 {
+			if bid, ok := se.X.(*ast.Ident); ok {
+				if bv := c.localVar(bid); bv != nil && bv != v && c.sliceOwned(bv) {
+					lo := "0"
+					if se.Low != nil {
+						nt, ok := c.natTerm(se.Low)
+						if !ok {
+							return
+						}
+						lo = nt
+					}
+					// the window keeps its length: writes through v replace base[lo : lo+len(v)]
+					c.views[v] = viewInfo{src: se.X, wrap: "(Go.splice " + c.name(bv) + " " + lo + " %s)"}
+					c.owned[v] = true
+				}
+			}
+		}
+		return
+	}
 	if _, isPtr := v.Type().(*types.Pointer); !isPtr {
 		return
 	}
@@ -608,6 +640,9 @@ func (c *fctx) recordView(lhs, rhs ast.Expr) {
 			return
 		}
 		c.views[v] = viewInfo{src: x.X, wrap: "(" + c.ltype(rhs, it) + "." + san(tt.Obj().Name()) + " %s)"}
+	case *ast.SliceExpr:
+		// v = base[lo:hi] of a slice this function created: v is a window of base; a write to v is written back
+		return
 	case *ast.SelectorExpr:
 		if sel, ok := c.info.Selections[x]; ok && sel.Kind() == types.FieldVal && rootVar(c.info, x) != nil {
 			if pt, ok := c.info.Types[x].Type.(*types.Pointer); ok {
